@@ -114,3 +114,208 @@ Print Assumptions C03_enc_read_original_or_forgery.
 Print Assumptions C03_unaltered_opens.
 Print Assumptions C03_cursor_seekable.
 Print Assumptions C03_throttled_seekable.
+
+(* ====================================================================================
+   ARCHIVE LEVEL (work package c03arch): files and names.
+   theories/EncAuthStream.v, ReaderAuthSim.v, ReaderAuth.v, ReaderAuthRun.v, ReaderAuthEx.v.
+
+   The layer theorem above is packaged as a stream-level relation AgreesOn S I plain E:
+   whatever S returns with Ok is original data at the position it claims (reads may be
+   short, empty, or fail; E is the end the stream CLAIMS).  Over any such stream, with
+   plain = the block stream a run of successful ArchiveWriter calls produced, every Ok of
+   ArchiveReader / BlocksToFileReader is the ORIGINAL result — under ONE hypothesis that
+   nothing authenticates: the claimed end is not before the true end (len plain <= E).
+   Without it the statement about names is FALSE (known finding D17: C03_D17_refuted), and
+   what remains true is C03_names_are_original_plaintext_substrings_partial.
+   ==================================================================================== *)
+From MLA Require Import Blocks Writer Reader EncAuthStream ReaderAuthSim ReaderAuth ReaderAuthRun ReaderAuthEx
+  RoundTripBlocks RoundTripReader RoundTripWriter RoundTrip.
+From MLAGen Require Src.
+From Coq Require Import Permutation.
+
+(* the encryption reader over ARBITRARY inner bytes w agrees on the original plaintext, unless
+   w contains a forgery; the end it claims is computed from len w alone *)
+Theorem C03_archive_enc_agrees :
+  forall CHUNK TAG, 0 < CHUNK -> forall ks tagc S w R, Seekable S w R ->
+  forall plain, ~ Forgery CHUNK TAG ks tagc w plain ->
+  AgreesOn (EncReader CHUNK TAG ks tagc S) (EncI CHUNK TAG ks tagc S w R) plain (enc_end CHUNK TAG w).
+Proof. exact enc_agrees. Qed.
+
+(* opening the layer leaves a state of the invariant; on success it stands at 0 *)
+Theorem C03_archive_enc_open :
+  forall CHUNK TAG, 0 < CHUNK -> forall ks tagc S w R, Seekable S w R ->
+  forall i0 pin, R i0 pin ->
+  exists s r, enc_open CHUNK TAG ks tagc S i0 = (s, r) /\ (exists p, EncI CHUNK TAG ks tagc S w R s p) /\
+    (forall q, r = Ok q -> q = 0 /\ EncI CHUNK TAG ks tagc S w R s 0).
+Proof. exact enc_open_agrees. Qed.
+
+(* the in-memory cursor over the original bytes agrees, with the true end (non-vacuity of AgreesOn
+   with len plain <= E) *)
+Theorem C03_archive_cursor_agrees : forall plain, AgreesOn (Cursor plain) (fun s p => s = p) plain (len plain).
+Proof. exact cursor_agrees. Qed.
+
+Section C03Archive.
+  Variable FNMAX : N.
+  Variables T_START T_CONTENT T_EOA T_EOF : N.
+  Variable H : bytes -> bytes.
+  Variable order : footer -> footer.
+  Hypothesis Htags : tags_distinct T_START T_CONTENT T_EOA T_EOF.
+  Hypothesis HHlen : forall x, len (H x) = 32.
+  Hypothesis Horder : forall f, Permutation (order f) f.
+  (* the ORIGINAL archive: successful writer calls, then finalize *)
+  Variable ops : list wop.
+  Variable sf : wstate.
+  Variable rs : list (res N).
+  Hypothesis Hrun : wrun FNMAX T_START T_CONTENT T_EOA T_EOF H order w_init (ops ++ [OFinalize]) = (sf, rs).
+  Hypothesis Hok : Forall (fun r => is_ok r = true) rs.
+  Hypothesis Hutf : forallb op_utf8 ops = true.
+  Hypothesis Hlen64 : len (w_out sf) < 2 ^ 64.
+  Hypothesis Hfoot32 : len (ser_footer_map (order (w_footer sf))) < 2 ^ 32.
+  (* what the archive reader sees after the alteration *)
+  Variable S : Stream.
+  Variable I : st S -> N -> Prop.
+  Variable E : N.
+  Hypothesis HA : AgreesOn S I (w_out sf) E.
+
+  (* if the reader opens, it holds the ORIGINAL footer *)
+  Theorem C03_archive_open : forall s0 p0 r, len (w_out sf) <= E -> I s0 p0 -> ropen S s0 = Ok r ->
+    RSA order sf S I r /\ I (r_src r) 0.
+  Proof. exact (auth_open FNMAX _ _ _ _ H order HHlen Horder ops sf rs Hrun Hok Hutf Hlen64 Hfoot32 S I E HA). Qed.
+
+  (* it lists exactly the original names, each once *)
+  Theorem C03_archive_list : forall r, RSA order sf S I r ->
+    Permutation (list_files S r) (map fst (started 0 ops)) /\ NoDup (list_files S r).
+  Proof. exact (auth_list FNMAX _ _ _ _ H order HHlen Horder ops sf rs Hrun Hok Hutf Hlen64 Hfoot32 S I). Qed.
+
+  (* a file that opens announces the original size; every successful read delivers the NEXT
+     original bytes (possibly fewer than asked, possibly none); read_all returns a prefix *)
+  Theorem C03_archive_get_file : forall r name id r' bs sz, RSA order sf S I r -> In (name, id) (started 0 ops) ->
+    get_file FNMAX T_START T_CONTENT T_EOA T_EOF S r name = (r', Ok (Some (bs, sz))) ->
+    RSA order sf S I r' /\ sz = len (pieces 0 id ops) /\
+    exists Inv : bstate S -> bytes -> Prop, Inv bs (pieces 0 id ops) /\
+      (forall zf b todo n b' d, Inv b todo -> bread FNMAX T_START T_CONTENT T_EOA T_EOF S zf b n = (b', Ok d) ->
+         exists todo', todo = d ++ todo' /\ Inv b' todo') /\
+      (forall sizes zf fuel b todo i acc b' out, Inv b todo ->
+         read_all FNMAX T_START T_CONTENT T_EOA T_EOF S zf fuel b sizes i acc = (b', Ok out) ->
+         exists d, out = acc ++ d /\ prefix d todo).
+  Proof. exact (auth_get_file FNMAX _ _ _ _ H order Htags HHlen Horder ops sf rs Hrun Hok Hutf Hlen64 Hfoot32 S I E HA). Qed.
+
+  Theorem C03_archive_read_all_prefix : forall r name id r' bs sz sizes zf fuel bs' out,
+    RSA order sf S I r -> In (name, id) (started 0 ops) ->
+    get_file FNMAX T_START T_CONTENT T_EOA T_EOF S r name = (r', Ok (Some (bs, sz))) ->
+    read_all FNMAX T_START T_CONTENT T_EOA T_EOF S zf fuel bs sizes 0%nat [] = (bs', Ok out) ->
+    prefix out (pieces 0 id ops).
+  Proof. exact (auth_read_all FNMAX _ _ _ _ H order Htags HHlen Horder ops sf rs Hrun Hok Hutf Hlen64 Hfoot32 S I E HA). Qed.
+
+  (* a hash that is returned is the hash of the original content *)
+  Theorem C03_archive_get_hash : forall r name id r' h, RSA order sf S I r -> In (name, id) (started 0 ops) ->
+    get_hash FNMAX T_START T_CONTENT T_EOA T_EOF S r name = (r', Ok (Some h)) ->
+    h = H (pieces 0 id ops) /\ RSA order sf S I r'.
+  Proof. exact (auth_get_hash FNMAX _ _ _ _ H order Htags HHlen Horder ops sf rs Hrun Hok Hutf Hlen64 Hfoot32 S I E HA). Qed.
+
+  (* names never started are absent; whatever a call returns the reader keeps the original footer *)
+  Theorem C03_archive_absent : forall r name, RSA order sf S I r -> ~ In name (map fst (started 0 ops)) ->
+    get_file FNMAX T_START T_CONTENT T_EOA T_EOF S r name = (r, Ok None) /\
+    get_hash FNMAX T_START T_CONTENT T_EOA T_EOF S r name = (r, Ok None).
+  Proof. exact (auth_absent FNMAX _ _ _ _ H order HHlen Horder ops sf rs Hrun Hok Hutf Hlen64 Hfoot32 S I). Qed.
+  Theorem C03_archive_reader_keeps : forall r name, RSA order sf S I r ->
+    RSA order sf S I (fst (get_file FNMAX T_START T_CONTENT T_EOA T_EOF S r name)) /\
+    RSA order sf S I (fst (get_hash FNMAX T_START T_CONTENT T_EOA T_EOF S r name)).
+  Proof. exact (auth_keeps FNMAX _ _ _ _ order sf S I E HA). Qed.
+
+  (* WITHOUT the hypothesis on the claimed end (PARTIAL with respect to C03: a listed name need
+     not be an original name — it is a substring of the original plaintext, and so is every
+     byte string delivered by a file read) *)
+  Theorem C03_names_are_original_plaintext_substrings_partial : forall s0 p0 r, I s0 p0 -> ropen S s0 = Ok r ->
+    (forall x, In x (list_files S r) -> Sub x (w_out sf)) /\
+    forall name, let '(r', x) := get_file FNMAX T_START T_CONTENT T_EOA T_EOF S r name in
+      forall bs sz, x = Ok (Some (bs, sz)) ->
+      forall zf n, let '(bs', y) := bread FNMAX T_START T_CONTENT T_EOA T_EOF S zf bs n in
+        forall d, y = Ok d -> Sub d (w_out sf).
+  Proof. exact (auth_names_sub_partial FNMAX _ _ _ _ sf S I E HA). Qed.
+End C03Archive.
+
+(* end to end for the encryption reader: arbitrary altered inner bytes w, no forgery, the length
+   of w still maps to at least the original plaintext length *)
+Theorem C03_archive_enc_open_list :
+  forall FNMAX T_START T_CONTENT T_EOA T_EOF H order,
+  (forall x, len (H x) = 32) -> (forall f, Permutation (order f) f) ->
+  forall ops sf rs,
+  wrun FNMAX T_START T_CONTENT T_EOA T_EOF H order w_init (ops ++ [OFinalize]) = (sf, rs) ->
+  Forall (fun r => is_ok r = true) rs -> forallb op_utf8 ops = true ->
+  len (w_out sf) < 2 ^ 64 -> len (ser_footer_map (order (w_footer sf))) < 2 ^ 32 ->
+  forall CHUNK TAG, 0 < CHUNK -> forall ks tagc Sin w Rin, Seekable Sin w Rin ->
+  ~ Forgery CHUNK TAG ks tagc w (w_out sf) ->
+  forall i0 pin s0 q r, Rin i0 pin -> len (w_out sf) <= enc_end CHUNK TAG w ->
+  enc_open CHUNK TAG ks tagc Sin i0 = (s0, Ok q) -> ropen (EncReader CHUNK TAG ks tagc Sin) s0 = Ok r ->
+  RSA order sf (EncReader CHUNK TAG ks tagc Sin) (EncI CHUNK TAG ks tagc Sin w Rin) r /\
+  (Permutation (list_files (EncReader CHUNK TAG ks tagc Sin) r) (map fst (started 0 ops)) /\
+   NoDup (list_files (EncReader CHUNK TAG ks tagc Sin) r)).
+Proof. exact enc_archive_authentic. Qed.
+
+(* the claimed end of an UNALTERED wire — and of any altered wire of the same length — is the
+   true end *)
+Theorem C03_archive_same_length_end :
+  forall CHUNK TAG, 0 < CHUNK -> 0 < TAG -> forall ks tagc, (forall i c, len (tagc i c) = TAG) ->
+  forall plain w, len w = len (enc_format CHUNK ks tagc plain) -> enc_end CHUNK TAG w = len plain.
+Proof. exact enc_end_same_length. Qed.
+
+(* D17: the statement about names is false of the faithful model without that hypothesis *)
+Theorem C03_D17_refuted :
+  exists (ops : list wop) (w' : bytes),
+    let run := wrun D17.FN Src.BT_FileStart Src.BT_FileContent Src.BT_EndOfArchiveData Src.BT_EndOfFile
+                    D17.Hz D17.oid w_init (ops ++ [OFinalize]) in
+    Forall (fun r => is_ok r = true) (snd run) /\
+    prefix w' (enc_format D17.CH toy_ks (toy_tag D17.TG) (w_out (fst run))) /\
+    exists names x, D17.open_list w' = Ok names /\ In x names /\ ~ In x (map fst (started 0 ops)).
+Proof. exact C03_D17_witness. Qed.
+
+(* ---------- non-vacuity, archive level (toy cipher, CHUNK = 13, TAG = 2) ---------- *)
+(* the writer run of the instance is successful, one file "a" of 56 bytes, 186 bytes of blocks *)
+Example C03_ex_archive_run :
+  Forall (fun r => is_ok r = true) (snd D17.run) /\ started 0 D17.ops = [([97], 0)] /\
+  pieces 0 0 D17.ops = D17.content /\ len D17.content = 56 /\ len D17.plain = 186.
+Proof. exact D17.run_ok. Qed.
+(* unaltered: lists "a", returns its content; the hypothesis len plain <= E holds (with equality) *)
+Example C03_ex_archive_unaltered :
+  D17.open_list D17.wire = Ok [[97]] /\ D17.open_read D17.wire [97] 5 = Ok (Some D17.content).
+Proof. exact D17.unaltered. Qed.
+(* altered, length kept: what opens lists "a" only; reads stop with an error *)
+Example C03_ex_archive_altered :
+  D17.open_list (D17.flip 50 D17.wire) = Ok [[97]] /\ D17.open_read (D17.flip 50 D17.wire) [97] 5 = Err EWrongTag /\
+  D17.open_list (D17.flip 212 D17.wire) = Err EWrongTag /\
+  D17.open_list (D17.swap01 D17.wire) = Err EWrongTag.
+Proof. exact D17.altered_same_length. Qed.
+(* trailing chunks dropped: the claimed end (91) is before the true end (186) — the hypothesis fails *)
+Example C03_ex_archive_cut :
+  prefix D17.cut D17.wire /\ len D17.cut = 7 * (D17.CH + D17.TG) /\
+  end_pos_of_inner D17.CH D17.TG (len D17.cut) = Ok 91 /\
+  end_pos_of_inner D17.CH D17.TG (len D17.wire) = Ok (len D17.plain).
+Proof. exact D17.cut_is_prefix. Qed.
+
+(* the hypotheses of C03_archive_enc_open_list are jointly met by an ALTERED wire: 2-element tag
+   [counter; injective code of the ciphertext] (no fixed number of BYTES can exclude forgery
+   under every counter), one bit flipped in chunk 3, length unchanged: no forgery under ANY
+   counter, the claimed end is the true end, the layer and the archive open, "a" is listed *)
+Example C03_ex_archive_no_forgery : ~ Forgery D17.CH D17.TG toy_ks NF.xtag NF.w D17.plain.
+Proof. exact NF.no_forgery. Qed.
+Example C03_ex_archive_hypotheses_met :
+  bytes_eqb NF.w NF.xwire = false /\ (len D17.plain <=? enc_end D17.CH D17.TG NF.w) = true /\
+  NF.open_list_x NF.w = Ok [[97]].
+Proof. exact NF.hypotheses_met. Qed.
+
+Print Assumptions C03_archive_enc_agrees.
+Print Assumptions C03_ex_archive_no_forgery.
+Print Assumptions C03_archive_enc_open.
+Print Assumptions C03_archive_cursor_agrees.
+Print Assumptions C03_archive_open.
+Print Assumptions C03_archive_list.
+Print Assumptions C03_archive_get_file.
+Print Assumptions C03_archive_read_all_prefix.
+Print Assumptions C03_archive_get_hash.
+Print Assumptions C03_archive_absent.
+Print Assumptions C03_archive_reader_keeps.
+Print Assumptions C03_names_are_original_plaintext_substrings_partial.
+Print Assumptions C03_archive_enc_open_list.
+Print Assumptions C03_archive_same_length_end.
+Print Assumptions C03_D17_refuted.
